@@ -34,7 +34,7 @@ Case format (JSON-able, sufficient for `replay`):
   s >= e denotes the origin-spanning location [s:L)+[0:e); protocluster i has product "p<i>";
   each pair in `share` gets one gene inside both cores annotated CORE for both products.
   All orders of supply required by RULE are run by `replay` and by the checker.  Membership of
-  a candidate is read as a set (the pinned code can list a protocluster twice, see C05-F6).
+  a candidate is read as a set (before the C05-F6 repair a protocluster could be listed twice).
 
 Tiers: quick = the exhaustive grid family of RULE (n <= 4); thorough = larger grids, n = 5 on
 5 cells, plus seeded random arrangements of 5..6 protoclusters.  With >= 5 protoclusters the
@@ -709,38 +709,6 @@ def _is_promotion(clause: str, case: Dict[str, Any]) -> bool:
     return False
 
 
-def _strong_nodes(expectation: "Expectation") -> List[Set[int]]:
-    """The units the later passes work with: every core-overlap group (it becomes a hybrid or an
-    interleaved candidate) and every remaining protocluster on its own."""
-    nodes = [set(group) for group in expectation.core_groups]
-    absorbed = {i for group in nodes for i in group}
-    return nodes + [{i} for i in range(expectation.count) if i not in absorbed]
-
-
-def _is_bridging(clause: str, case: Dict[str, Any]) -> bool:
-    """F3: neighbouring groups: a protocluster outside every hybrid/interleaved candidate whose
-    extent overlaps such a candidate is taken out of the `unassigned` set, so its overlap with
-    another such protocluster is never examined; the extent-overlap group falls apart when that
-    overlap is its only link."""
-    if _plain(clause) != "neighbouring-groups-exact":
-        return False
-    expectation, _ = _group_levels(case)
-    nodes = _strong_nodes(expectation)
-    strong = [len(node) > 1 for node in nodes]
-    masks = [_union(expectation.extents, node) for node in nodes]
-    touches = {a for a in range(len(nodes)) if not strong[a]
-               and any(strong[b] and masks[a] & masks[b] for b in range(len(nodes)))}
-    edges = []
-    for a in range(len(nodes)):
-        for b in range(a + 1, len(nodes)):
-            if masks[a] & masks[b] and (strong[a] or strong[b] or not (a in touches or b in touches)):
-                edges.append((a, b))
-    found = sorted(sorted(set().union(*[nodes[i] for i in group]))
-                   for group in components(len(nodes), edges))
-    found = [group for group in found if len(group) > 1]
-    return found != sorted(sorted(group) for group in expectation.extent_groups)
-
-
 def _pinned_span(arcs: Sequence[Sequence[int]], length: int) -> int:
     """Set of bases the PINNED connect_locations returns for chained arcs on a ring when one of
     them spans the origin: the other arcs go to a pre-origin chunk (start >= length - end) or a
@@ -814,83 +782,25 @@ def _is_over_cover(clause: str, case: Dict[str, Any]) -> bool:
     return False
 
 
-def _is_cross_origin_subset(clause: str, case: Dict[str, Any]) -> bool:
-    """F6: ring; a chemical hybrid whose core span crosses the origin has at least two, but not
-    all, members with an origin-crossing core of their own, and some protocluster is in no hybrid:
-    `_find_cross_origin_interleaved` turns exactly those members into an extra interleaved
-    candidate (a subset of the hybrid)."""
-    if _plain(clause) != "interleaved-groups-exact" or not case["circ"]:
-        return False
-    expectation, _ = _group_levels(case)
-    in_hybrid = {i for must, may in expectation.hybrids for i in must | may}
-    if len(in_hybrid) == expectation.count:
-        return False                      # the pass only runs when some protocluster is left over
-    for must, may in expectation.hybrids:
-        crossing = [i for i in must | may if spans_origin(case["protos"][i][0])]
-        if 2 <= len(crossing) < len(must | may):
-            return True
-    return False
-
-
-def _is_whole_ring_core(clause: str, case: Dict[str, Any]) -> bool:
-    """F7: ring; the cores of a share group cover every base of the record: the pinned core span is
-    a two-part location with an arbitrary cut, and a core lying across that cut is not "contained",
-    so the hybrid misses a protocluster whose core lies inside the group's core span."""
-    if _plain(clause) not in KIND_CLAUSE.values() or not case["circ"]:
-        return False
-    expectation, _ = _group_levels(case)
-    full = (1 << case["L"]) - 1
-    return any(_union(expectation.cores, group) == full and len(group) < expectation.count
-               for group in expectation.share_groups)
-
-
-def _is_bisect_window(clause: str, case: Dict[str, Any]) -> bool:
-    """F8: at least three hybrid/interleaved candidates exist when a leftover protocluster is
-    compared with the candidates: the pinned scans start at `bisect_left(candidates, x) - 1` and
-    skip earlier candidates, so an overlap with a long candidate that sorts two or more places
-    before the protocluster is missed (needs >= 5 protoclusters)."""
-    if _plain(clause) not in ("interleaved-groups-exact", "neighbouring-groups-exact"):
-        return False
-    expectation, _ = _group_levels(case)
-    strong = len(expectation.hybrids) + len([g for g in expectation.core_groups
-                                             if not any(set(g) == must | may for must, may in expectation.hybrids)])
-    leftover = expectation.count - len({i for g in expectation.core_groups for i in g})
-    if _plain(clause) == "interleaved-groups-exact":
-        in_hybrid = {i for must, may in expectation.hybrids for i in must | may}
-        return len(expectation.hybrids) >= 2 and len(in_hybrid) < expectation.count
-    return strong >= 3 and leftover >= 1
-
-
 def _is_compound(clause: str, case: Dict[str, Any]) -> bool:
-    """F10: >= 5 protoclusters (beyond the bound up to which the open findings were delimited
-    clause by clause): the defects compound - a folded group changes what every later pass sees -
-    so for the kind clauses, singles-exact and order-independent the class is only "the input
-    shows the feature of at least one of F1, F3, F4, F6, F7, F8 (for whatever clause), or has two or more share
-    groups, or - on a ring - a share group together with an origin-crossing core"."""
+    """F10: >= 5 protoclusters (beyond the bound up to which F1 and F4 are delimited clause by
+    clause): a folded (F1) or inflated (F4) candidate changes what every later pass works with, so
+    for the kind clauses, singles-exact and order-independent the class is only "the input shows
+    the feature of F1 or F4 for some clause"."""
     plain = _plain(clause)
     if len(case["protos"]) < 5 or plain not in list(KIND_CLAUSE.values()) + ["singles-exact", "order-independent"]:
         return False
-    probes = list(KIND_CLAUSE.values()) + ["singles-exact", "location-is-span-of-members"]
-    if len({tuple(sorted(pair)) for pair in case["share"]}) >= 2 and \
-            len(Expectation(case, _declared_sharing(case)).share_groups) >= 2:
-        return True       # two or more chemical hybrids interacting (folding, mutual containment)
-    if case["circ"] and case["share"] and any(spans_origin(core) for core, _ in case["protos"]):
-        return True       # the cross-origin interleaved pass working on hybrids (cf. C05-F6)
-    for predicate in (_is_promotion, _is_bridging, _is_over_cover,
-                      _is_cross_origin_subset, _is_whole_ring_core, _is_bisect_window):
-        if any(predicate(probe, case) for probe in probes):
-            return True
-    return False
+    probes = list(KIND_CLAUSE.values()) + ["location-is-span-of-members"]
+    return any(predicate(probe, case) for predicate in (_is_promotion, _is_over_cover) for probe in probes)
 
 
-# C05-F2 (single-pass _merge_sets), C05-F5 (singles looked up under (0, L)) and C05-F9 (tie order
-# deciding the merge) are repaired in /repo and have no class any more: a recurrence is reported.
+# Repaired in /repo, no class any more (a recurrence is reported as an unclassified failure):
+# C05-F2 single-pass _merge_sets, C05-F3 singles overlapping a candidate never compared with each
+# other, C05-F5 singles looked up under (0, L), C05-F6 cross-origin interleaved subset of a hybrid,
+# C05-F7 whole-ring hybrid core cut at an arbitrary point, C05-F8 bisect window of the candidate
+# scans, C05-F9 tie order deciding the merge.
 FINDING_CLASSES = {
     "C05-F1": _is_promotion,
-    "C05-F3": _is_bridging,
     "C05-F4": _is_over_cover,
-    "C05-F6": _is_cross_origin_subset,
-    "C05-F7": _is_whole_ring_core,
-    "C05-F8": _is_bisect_window,
     "C05-F10": _is_compound,
 }
